@@ -85,9 +85,10 @@ theorem buildTxList_pos (newTx : Bytes → Option Nat) (raw : Bytes) (n : Nat)
     · simp [hc] at h
     · have : (true && cnt == 0) = false := by simp [hc]
       simp only [this] at h
-      split at h
-      · cases h; omega
-      · cases h
+      by_cases hl : txLoop newTx cnt rest = true
+      · simp [hl] at h
+        omega
+      · simp [hl] at h
 
 theorem postCheck_total (newTx : Bytes → Option Nat) (trusted : Bool) (raw : Bytes) (cbOk merkleOk : Bool) :
     (postCheck true newTx trusted raw cbOk merkleOk).isPanic = false := by
